@@ -62,6 +62,16 @@ func (ex *Exec) newCtx(fr *Frame, st, old *State, results []Val) *evalCtx {
 			c.env[p.Name()] = TVal{V: fr.params[i], T: p.Type()}
 		}
 	}
+	// captured variables of a closure denote their current content
+	for _, fv := range fn.FreeVars {
+		if r, ok := fr.regs[fv]; ok {
+			if ref, isRef := r.(Sc); isRef {
+				pt := fv.Type().Underlying().(*types.Pointer)
+				addr := rootAddr(ref.T, fv.Type())
+				c.env[fv.Name()] = TVal{V: ex.load(st, addr), T: pt.Elem(), A: addr}
+			}
+		}
+	}
 	if results != nil {
 		sig := fn.Signature.Results()
 		for i := 0; i < sig.Len() && i < len(results); i++ {
